@@ -242,7 +242,9 @@ func (fr *frame) lookupDebug(name string, st *State) (Val, bool) {
 			continue
 		}
 		if _, ok := fr.vals[d.X]; !ok {
-			if _, isParam := d.X.(*ssa.Parameter); !isParam {
+			switch d.X.(type) {
+			case *ssa.Parameter, *ssa.Const, *ssa.Global, *ssa.Function:
+			default:
 				continue
 			}
 		}
@@ -401,6 +403,9 @@ func (e *SpecEnv) tr(x Expr) Val {
 		if x.Forall {
 			q = "forall"
 		}
+		if len(x.Pats) == 0 {
+			body = absolutizeIndex(body, x.Vars, c)
+		}
 		if len(x.Pats) > 0 {
 			var ps []string
 			for _, p := range x.Pats {
@@ -494,7 +499,7 @@ func addOff(off, i string) string {
 	if i == "0" {
 		return off
 	}
-	return "(+ " + off + " " + i + ")"
+	return "(ix " + off + " " + i + ")"
 }
 
 func derefType(t types.Type) types.Type {
@@ -509,7 +514,11 @@ func (e *SpecEnv) index(v, i Val) Val {
 	switch tt := v.Ty.Underlying().(type) {
 	case *types.Slice:
 		es := c.sortOf(tt.Elem())
-		return Val{T: c.rd(e.heapOf(es), c.acc("sobj", v.T), addOff(c.acc("soff", v.T), i.T)), Ty: tt.Elem()}
+		h := e.heapOf(es)
+		if e.heapParams == nil {
+			c.wantSliceWF(es, h)
+		}
+		return Val{T: c.rd(h, c.acc("sobj", v.T), addOff(c.acc("soff", v.T), i.T)), Ty: tt.Elem()}
 	case *types.Array:
 		return Val{T: fmt.Sprintf("(select %s %s)", v.T, i.T), Ty: tt.Elem()}
 	case *types.Map:
@@ -521,7 +530,7 @@ func (e *SpecEnv) index(v, i Val) Val {
 	case *types.Pointer:
 		if at, ok := tt.Elem().Underlying().(*types.Array); ok {
 			es := c.sortOf(at.Elem())
-			return Val{T: fmt.Sprintf("(select (select %s (pobj %s)) (+ (pidx %s) %s))", e.heapOf(es), v.T, v.T, i.T), Ty: at.Elem()}
+			return Val{T: c.rd(e.heapOf(es), c.acc("pobj", v.T), addOff(c.acc("pidx", v.T), i.T)), Ty: at.Elem()}
 		}
 	}
 	return e.errorf("index of %s", v.Ty)
@@ -870,6 +879,19 @@ func (c *Ctx) instSpec(sf *SpecFunc) *specInst {
 		si.pending = false
 		return si
 	}
+	if sf.Opaque && len(formals) > 0 {
+		var sorts, names []string
+		for _, f := range formals {
+			a := splitArgs(f)
+			names = append(names, a[0])
+			sorts = append(sorts, strings.TrimSpace(f[len(a[0])+2:len(f)-1]))
+		}
+		app := "(" + si.name + " " + strings.Join(names, " ") + ")"
+		c.decl(fmt.Sprintf("(declare-fun %s (%s) %s)", si.name, strings.Join(sorts, " "), c.sortOf(si.ret)))
+		c.decl(fmt.Sprintf("(assert (forall (%s) (! (= %s %s) :pattern (%s))))", strings.Join(formals, " "), app, bodyT, app))
+		si.pending = false
+		return si
+	}
 	c.decl(fmt.Sprintf("(define-fun %s (%s) %s %s)", si.name, strings.Join(formals, " "), c.sortOf(si.ret), bodyT))
 	si.pending = false
 	return si
@@ -922,8 +944,18 @@ func (e *SpecEnv) trNamedCall(name string, args []Expr) Val {
 		t := "(" + si.name + " @@FUEL@@ " + strings.Join(append(ts, "@@HEAPS:"+si.name+"@@"), " ") + ")"
 		return Val{T: t, Ty: si.ret}
 	}
+	refArgs := []string{}
+	for i, a := range ts {
+		if i < len(si.params) && isRefType(si.params[i]) {
+			refArgs = append(refArgs, a)
+		}
+	}
 	for _, k := range si.heaps {
-		ts = append(ts, e.heapOf(k))
+		h := e.heapForSpec(k, si, refArgs)
+		if e.heapParams == nil {
+			c.wantSliceWF(k, h)
+		}
+		ts = append(ts, h)
 	}
 	if si.rec {
 		fuel := "(FS (FS FZ))"
@@ -976,4 +1008,214 @@ func (e *SpecEnv) modItems(m Expr) []modItem {
 // specEnv builds the environment for clauses evaluated inside the function.
 func (fr *frame) specEnv(st *State, li *loopInfo) *SpecEnv {
 	return &SpecEnv{c: fr.c, fr: fr, vars: map[string]Val{}, st: st, old: fr.entry, oldAlloc: "alloc0", pkg: funcPkg(fr.fn), loop: li}
+}
+
+func isRefType(t types.Type) bool {
+	switch tt := t.Underlying().(type) {
+	case *types.Slice, *types.Pointer, *types.Interface, *types.Map, *types.Signature:
+		return true
+	case *types.Struct:
+		for i := 0; i < tt.NumFields(); i++ {
+			if isRefType(tt.Field(i).Type()) {
+				return true
+			}
+		}
+	}
+	return false
+}
+
+// oldRooted: the term mentions only function-entry values (parameters,
+// captured cells, globals, entry heaps, bound variables).
+func (c *Ctx) oldRooted(t string, depth int) bool {
+	if depth > 6 {
+		return false
+	}
+	i := 0
+	for i < len(t) {
+		ch := t[i]
+		if !(ch == '_' || ch >= 'a' && ch <= 'z' || ch >= 'A' && ch <= 'Z') {
+			i++
+			continue
+		}
+		j := i
+		for j < len(t) && (t[j] == '_' || t[j] == '!' || t[j] >= 'a' && t[j] <= 'z' || t[j] >= 'A' && t[j] <= 'Z' || t[j] >= '0' && t[j] <= '9') {
+			j++
+		}
+		id := t[i:j]
+		i = j
+		if !strings.Contains(id, "!") {
+			// generated names always carry '!'; everything else is a symbol of the
+			// signature, an entry heap (H_.._0), alloc0, a bound variable or an accessor
+			if strings.HasPrefix(id, "H_") && !strings.HasSuffix(id, "_0") {
+				return false
+			}
+			continue
+		}
+		if strings.HasPrefix(id, "p_") || strings.HasPrefix(id, "fv_") {
+			continue
+		}
+		if d, ok := c.defs[id]; ok {
+			if !c.oldRooted(d, depth+1) {
+				return false
+			}
+			continue
+		}
+		return false
+	}
+	return true
+}
+
+// heapForSpec chooses the heap passed to a recursive spec function. When the
+// current heap differs from the entry heap but every reference argument is a
+// function-entry value and the function does not claim to modify that heap,
+// the entry heap is passed instead, justified by a proved frame obligation
+// (pre-existing objects are unchanged at this point).
+func (e *SpecEnv) heapForSpec(key string, si *specInst, refArgs []string) string {
+	c := e.c
+	if e.heapParams != nil || e.fr == nil || !si.rec {
+		return e.heapOf(key)
+	}
+	cur := c.heap(e.st, key)
+	entry := c.heap(e.fr.entry, key)
+	if cur == entry {
+		return cur
+	}
+	for _, m := range e.fr.modObjs {
+		if m.sortKey == key {
+			return cur
+		}
+	}
+	for _, a := range refArgs {
+		if !c.oldRooted(a, 0) {
+			return cur
+		}
+	}
+	fk := "framept|" + key + "|" + cur
+	if !e.fr.frameDone[fk] {
+		e.fr.frameDone[fk] = true
+		ft := frameFormula(key, cur, entry, "0", "alloc0", nil, strings.HasPrefix(key, "map!"))
+		e.fr.oblige("frame", sanitize(key), nil, ft, "pre-existing objects of sort "+key+" are unchanged at this point (lets specs about the inputs be read in the entry heap)", 0)
+	}
+	return entry
+}
+
+// absolutizeIndex rewrites a quantified body that indexes a slice at
+// (ix OFF q_k) so that the bound variable is the absolute position
+// j = OFF + k: (ix OFF q_k) becomes q_k and other occurrences of q_k become
+// (- q_k OFF). The formulas are equivalent (k ranges over all integers, and
+// ix(a,b) = a+b); the rewritten one has the pattern-friendly shape
+// (select A q_k), which E-matching instantiates at every read of A.
+func absolutizeIndex(body string, vars []Param, c *Ctx) string {
+	for _, p := range vars {
+		if p.T.Kind != "name" || p.T.Name != "int" {
+			continue
+		}
+		v := "q_" + p.Name
+		needle := " " + v + ")"
+		// find "(ix OFF q_k)"
+		idx := -1
+		var off string
+		search := 0
+		for {
+			i := strings.Index(body[search:], "(ix ")
+			if i < 0 {
+				break
+			}
+			i += search
+			// parse balanced term starting at i
+			depth := 0
+			end := -1
+			for k := i; k < len(body); k++ {
+				if body[k] == '(' {
+					depth++
+				} else if body[k] == ')' {
+					depth--
+					if depth == 0 {
+						end = k
+						break
+					}
+				}
+			}
+			if end < 0 {
+				break
+			}
+			term := body[i : end+1]
+			if strings.HasSuffix(term, needle) {
+				o := strings.TrimSpace(term[len("(ix ") : len(term)-len(needle)])
+				if !containsIdent(o, v) && balanced(o) {
+					idx = i
+					off = o
+					break
+				}
+			}
+			search = i + 4
+		}
+		if idx < 0 {
+			continue
+		}
+		target := "(ix " + off + " " + v + ")"
+		marker := "@@ABS@@"
+		body = strings.ReplaceAll(body, target, marker)
+		body = replaceIdent(body, v, "(- "+v+" "+off+")")
+		body = strings.ReplaceAll(body, marker, v)
+	}
+	return body
+}
+
+func balanced(s string) bool {
+	d := 0
+	for _, ch := range s {
+		if ch == '(' {
+			d++
+		} else if ch == ')' {
+			d--
+			if d < 0 {
+				return false
+			}
+		}
+	}
+	return d == 0
+}
+
+func isIdentChar(ch byte) bool {
+	return ch == '_' || ch == '!' || ch == '.' || ch >= 'a' && ch <= 'z' || ch >= 'A' && ch <= 'Z' || ch >= '0' && ch <= '9'
+}
+
+func containsIdent(s, id string) bool {
+	i := 0
+	for {
+		j := strings.Index(s[i:], id)
+		if j < 0 {
+			return false
+		}
+		j += i
+		before := j == 0 || !isIdentChar(s[j-1])
+		after := j+len(id) >= len(s) || !isIdentChar(s[j+len(id)])
+		if before && after {
+			return true
+		}
+		i = j + len(id)
+	}
+}
+
+func replaceIdent(s, id, repl string) string {
+	var b strings.Builder
+	i := 0
+	for {
+		j := strings.Index(s[i:], id)
+		if j < 0 {
+			b.WriteString(s[i:])
+			return b.String()
+		}
+		j += i
+		before := j == 0 || !isIdentChar(s[j-1])
+		after := j+len(id) >= len(s) || !isIdentChar(s[j+len(id)])
+		b.WriteString(s[i:j])
+		if before && after {
+			b.WriteString(repl)
+		} else {
+			b.WriteString(id)
+		}
+		i = j + len(id)
+	}
 }
